@@ -830,3 +830,42 @@ def c07(run):
     run.add_samples(oks[:2])
     run.assumptions = ['RSA and DSA shapes are sampled (generation cost); all other algorithms are swept']
     run.notes['trusted_base'] = TRUSTED
+
+
+def hostile_cfg(spec='MCSpec', invs='WellFormedPrefix Terminates', probe='secret_values'):
+    return (f"CONSTANTS\n  ProbeLayer = \"{probe}\"\nSPECIFICATION {spec}\nINVARIANTS {invs}\nCHECK_DEADLOCK FALSE\n")
+
+
+HOSTILE_LAYERS = ['session_plaintext', 'edata_stream', 'inner_packets', 'compressed', 'literal', 'protected_material', 'secret_values', 'signature']
+
+
+@prop('C04', 'exploration')
+def c04(run):
+    run.mc('MCHostile', hostile_cfg(), name='mc', workers=2)
+    # coverage statements: hostile octets DO reach every layer behind the cryptographic wrappers (each probe must be violated)
+    for l in HOSTILE_LAYERS:
+        run.mc('MCHostile', hostile_cfg(invs='Probe', probe=l), name=f'reach_{l}', workers=2, expect_violation='Probe')
+    g = run.mc('MCHostile', hostile_cfg(spec='GSpec', invs='GenFamilies'), name='gen', workers=1, count=False)
+    g2 = run.mc('MCSymLayouts', symlayouts_cfg(invs='GenS2K GenEcdh', cbits='{0}'), name='gen_plans', workers=1, count=False)
+    cases = g.cases + [c for c in g2.cases if c['kind'] in ('ecdh', 's2k_rounds') or (c['kind'] == 's2k_iter' and c['c'] == 0)]
+    for i, c in enumerate(cases):
+        c.setdefault('ci', i)
+    body, summary, oks = run.harness('c04', cases, timeout=3400)
+    run.distinct_nontrivial = summary['extra']['nontrivial']
+    run.traces_validated = summary['evaluations']
+    run.rule = ('Hostile.tla models the decoding pipelines (message: armor, framing, ESK fields, session-key plaintext, encrypted-data header, encrypted stream, inner '
+                'packets, compressed, literal, signature; key: armor, framing, public part, protection fields, protected material, secret values, self-signatures; '
+                'cleartext: headers, body, signature armor, signature) and ATTACK FAMILIES = (pipeline, target layer, carrier, container) that keep every layer before '
+                'the target well formed with valid cryptography; TLC checks the prefix stays well formed and - one violated probe per layer - that hostile octets reach '
+                'every layer behind the crypto boundary; it emits the 304 feasible families with the field map of the target layer. The harness realises every '
+                '(family, field) with its own wrapping code (RSA PKCS#1, ECDH on 4 curves, X25519, X448, SKESK v4/v5/v6; SEIPD v1/v2, GnuPG AEAD, legacy SED; secret-key '
+                'protection 253/254/255) around attacker-chosen content: every value of every one-octet field, session-key plaintexts of 0..40 octets for every '
+                'algorithm octet, every prefix of streams, deep / wide nesting, compression corruption and a bomb, locked-key material of 0..40 octets. Every artefact '
+                'goes through every applicable entry point (PacketParser + re-serialisation, Message parse / decrypt_the_ring in both SEIPDv1 modes / decompress / read / '
+                'verify, key parse / verify_bindings / unlock / sign / encrypt-to, cleartext parse / verify, detached signature verify, dearmor) in a supervised worker '
+                'process: a panic is a record, a variant that does not return within the watchdog limit is a hang record, a dying worker (stack overflow, abort) is pinned '
+                'down by re-running the in-flight variants alone')
+    run.add_samples([c for c in cases if c.get('kind') == 'family' and c.get('behind_crypto')][:3])
+    run.assumptions = ['the recipient holds one key per public-key algorithm and the message password; AES-128 session keys',
+                       'EdDSA/ECDSA/RSA signature forgeries are not attempted: hostile signature packets are field-mutated genuine ones']
+    run.notes['trusted_base'] = TRUSTED
